@@ -78,6 +78,15 @@ CHECKS = {
         design_ref="3 C03",
         technique="CrossHair (z3) exploration of one inductive step of the real state-changing code over a catalog stub; replay on real DuckDB",
     ),
+    "C06": dict(
+        category="other",
+        text="Bounded symbolic execution (CrossHair/z3) of the real DuckDB-type -> Snowflake rowtype/ResultMetadata conversion on symbolic "
+        "type strings (tag over the set of types real DuckDB reports for fakesnow's columns and ~70 expression forms, symbolic DECIMAL "
+        "precision/scale, symbolic column names), and of execute + description/describe() for 33 statement kinds and at a symbolic "
+        "point of the fetch sequence against a DuckDB stand-in (frame conditions: only DESCRIBE calls, nothing changes).",
+        design_ref="3 C06",
+        technique="symbolic execution of the real Python functions with CrossHair (z3) over an engine stub; replay on the real stack",
+    ),
 }
 
 NOT_YET = "not claimed yet: check not built in this round (see DESIGN.md 7 for the order of work)"
